@@ -1,5 +1,6 @@
 PROP = {
-    "groups": ["detector"],
+    "shared_groups": "also runs the neighbouring groups whose code can break this property: filter-history (described under C05); e2e-tmux (described under C16); relayneg (described under C14)",
+    "groups": ["detector", "filter-history", "e2e-tmux", "relayneg"],
     "rule": "detectTrzsz histories (one case = flags relay/tmux/windows-environment + optional seeded id table + list of (tunnel, buffer) calls on ONE detector): "
             "test-suite corpus; grammar triggers (modes S/R/D, version fields up to and beyond 2^32-1, ids absent/short/13+ digits with every two-digit suffix, "
             "ports absent/present/oversized) after clean, noisy, earlier-marker and tmux control-mode prefixes; every single-byte truncation, deletion and "
